@@ -1,0 +1,9 @@
+//go:build verif
+
+// Contracts for package templater (HTTP scenario text templater), checked by /verif/govc. Comment-only: no code.
+package templater
+
+//@ func NewTextTemplater
+//@ props C13 C15
+//@ modifies nothing
+//@ ensures result != nil
